@@ -698,3 +698,85 @@ func ReplayGen(run *hx.Run, raw json.RawMessage) bool {
 	run.Add(GenCase(g))
 	return true
 }
+
+// ---- generators on the ladder (sizes past internal block limits, see tile.go) ----
+
+func ladderPath(m int) []float64 { // m path points, consecutive ones distinct, never three in line
+	p := make([]float64, 0, 3*m)
+	for i := 0; i < m; i++ {
+		p = append(p, float64(i%7), float64(i), float64((i*3)%5))
+	}
+	return p
+}
+
+// ladderGen: the parameterisation of generator `kind` that gives at least n vertices.
+func ladderGen(kind string, n int) GenDesc {
+	switch kind {
+	case "uvsphere", "uvsphere_unwelded", "hemisphere":
+		return GenDesc{Gen: kind, I: []int{n/128 + 2, 128}}
+	case "cylinder":
+		return GenDesc{Gen: kind, I: []int{n / 2}, B: []bool{false, false, true}}
+	case "circle", "cone":
+		return GenDesc{Gen: kind, I: []int{n}}
+	case "extrude_polygon", "extrude_circle":
+		return GenDesc{Gen: kind, I: []int{63}, P: ladderPath(n/64 + 1), B: []bool{true}}
+	case "extrude_line":
+		return GenDesc{Gen: kind, P: ladderPath(n/3 + 1)}
+	case "repeat_quads": // quad counts: n/4 copies of primitives.Quad
+		if n > 1<<13+1 {
+			return GenDesc{Gen: "repeat_line", I: []int{n / 8, 0}} // (repeat.Mesh is quadratic in the copy count: 8-vertex cubes above 2^13)
+		}
+		return GenDesc{Gen: "repeat_line", I: []int{n / 4, 1}}
+	case "repeat_cubes":
+		return GenDesc{Gen: "repeat_circle", I: []int{n/8 + 1, 0}}
+	}
+	return GenDesc{Gen: "repeat_fibonacci", I: []int{n/8 + 1, 0}}
+}
+
+var LadderGens = []string{"uvsphere", "uvsphere_unwelded", "hemisphere", "cylinder", "circle", "cone", "extrude_polygon",
+	"extrude_circle", "extrude_line", "repeat_quads", "repeat_cubes", "repeat_fibonacci"}
+
+// LadderCase runs one generator at a rung; the output is far above the literal cap, so the harness copy of wfb
+// judges it (CNote).
+func LadderCase(g GenDesc, rung int) hx.Case {
+	c := hx.Case{Kind: "ladder", Desc: g, Coq: fmt.Sprintf("CNote %d%%N", rung)}
+	kb, _ := json.Marshal(g)
+	c.Key = "ladder|" + string(kb)
+	m, class, msg := RunGenerator(g)
+	if class != "ok" {
+		c.GoFail = fmt.Sprintf("generator %s failed at rung %d (%s): %s", g.Gen, rung, class, msg)
+		return c
+	}
+	p, perr := ProjectWith(m, ProjectOpt{BlankVals: true})
+	if perr != nil {
+		c.GoFail = fmt.Sprintf("generator %s at rung %d: %v", g.Gen, rung, perr)
+	} else if !wfDesc(p) {
+		c.GoFail = fmt.Sprintf("generator %s at rung %d returned an ill-formed mesh (%d indices, %d vertices)", g.Gen, rung, len(p.Idx), p.NVerts())
+	} else if p.NVerts() < rung {
+		c.GoFail = fmt.Sprintf("ladder: generator %s gave %d vertices, rung %d not reached (harness parameterisation)", g.Gen, p.NVerts(), rung)
+	}
+	c.Nontriv = len(p.Idx) > 0
+	return c
+}
+
+// GenLadder: the generators rotate over the rungs (two per rung in the quick tier, every generator at every rung
+// in the thorough tier), so each generator meets every rung across seeds.
+func GenLadder(run *hx.Run, r *hx.Rng, thorough bool) {
+	rungs := append(append([]int{}, TileRungsLow...), TileRungsHigh...)
+	if thorough {
+		rungs = append(rungs, TileRungsThorough[0])
+	}
+	start := r.Intn(len(LadderGens))
+	for ri, rung := range rungs {
+		per := 2
+		if thorough {
+			per = len(LadderGens)
+		}
+		for j := 0; j < per; j++ {
+			kind := LadderGens[(start+ri*per+j)%len(LadderGens)]
+			run.Count("ladder:gen:" + kind)
+			run.Count(fmt.Sprintf("ladder:rung:%d", rung))
+			run.Add(LadderCase(ladderGen(kind, rung), rung))
+		}
+	}
+}
